@@ -536,6 +536,15 @@ class C27(core.Check):
         pool = []
         for _ in range(rng.randint(2, 6)):
             pool.append(fix_open_arrays(gen_desc(rng, rng.randint(1, 4), rng.chance(0.5))))
+        r2 = rng.fork('kinds')
+        if r2.chance(0.15):
+            # types of different kinds whose cache keys are made of the same words: an array T[n] (key: pointer
+            # type, n) next to a function without arguments returning T * (key: result type, small flag words)
+            t = ['prim', r2.choice(PRIMS)]
+            n = r2.choice([2, 3, 4, 5, 8, 10, 512, 768, 1024, 1280, 1025, 2048, 2560])
+            pool.append(['arr', t, n])
+            pool.append(['func', ['ptr', t], [], False])
+            pool.append(['ptr', ['arr', t, n]])
         ops = []
         for _ in range(rng.randint(5, 60)):
             name = rng.weighted([('build', 30), ('drop', 12), ('cycle', 6), ('dropffi', 3), ('churn', 4),
